@@ -683,7 +683,16 @@ fn gen_case(rng: &mut Rng, cfg: &Cfg) -> Case {
         ops.push(op);
     }
     ops.push(Op::Queries);
-    Case { prefix: g.rng.below(4) as u8, n_accounts, n_denoms, n_validators, init_balances, module_faults, unbonding_secs, ops }
+    // which implementation answers behind each recorder: mostly the stub with its fault plan,
+    // otherwise the repo's own accepting / failing / caching modules
+    let mut module_cfg = [0u8; 4];
+    let cfg_rate = if cfg.property == "C17" { 60 } else { 20 };
+    for (i, c) in module_cfg.iter_mut().enumerate() {
+        if g.rng.below(100) < cfg_rate {
+            *c = if i == 0 { 1 + g.rng.below(3) as u8 } else { 1 + g.rng.below(2) as u8 };
+        }
+    }
+    Case { prefix: g.rng.below(4) as u8, n_accounts, n_denoms, n_validators, init_balances, module_faults, unbonding_secs, module_cfg, ops }
 }
 
 // ------------------------------------------------------------------ minimisation
@@ -960,6 +969,18 @@ impl Engine for ChainSim {
             let mut c = case.clone();
             c.prefix = 0;
             out.push(c);
+        }
+        if case.module_cfg != [0; 4] {
+            let mut c = case.clone();
+            c.module_cfg = [0; 4];
+            out.push(c);
+            for i in 0..4 {
+                if case.module_cfg[i] != 0 {
+                    let mut c = case.clone();
+                    c.module_cfg[i] = 0;
+                    out.push(c);
+                }
+            }
         }
         if case.n_validators > 0 {
             let mut c = case.clone();
